@@ -97,12 +97,12 @@ func c26Class(name string) string {
 		return "suffrage-proof"
 	case strings.Contains(name, "BlockMap"):
 		return "blockmap"
+	case strings.Contains(name, "Operation"):
+		return "operation"
 	case strings.Contains(name, "State"):
 		return "state"
 	case strings.Contains(name, "Policy"):
 		return "policy"
-	case strings.Contains(name, "Operation"):
-		return "operation"
 	default:
 		return "other"
 	}
